@@ -10,7 +10,7 @@ use caches::{
     SegmentedCache, SegmentedCacheBuilder, TwoQueueCache, TwoQueueCacheBuilder, WTinyLFUCache, WTinyLFUCacheBuilder,
 };
 use std::cell::RefCell;
-use std::collections::hash_map::RandomState;
+
 use std::hash::BuildHasher;
 use std::marker::PhantomData;
 
@@ -208,7 +208,7 @@ fn drain_iters<K: KeyT, V: ValT, E: OnEvictCallback, S: BuildHasher>(l: &mut Raw
 pub enum RawInner<K, V> {
     Plain(RawLRU<K, V, DefaultEvictCallback, HB>),
     Cb(RawLRU<K, V, LogCb<K, V>, HB>),
-    CbRs(RawLRU<K, V, LogCb<K, V>, RandomState>),
+    CbRs(RawLRU<K, V, LogCb<K, V>, caches::DefaultHashBuilder>),
 }
 
 pub struct RawSubj<K, V>(pub RawInner<K, V>);
